@@ -7,8 +7,11 @@ import (
 	"compress/bzip2"
 	"compress/gzip"
 	"crypto"
+	"crypto/md5"
+	"crypto/sha1"
 	"crypto/sha256"
 	"fmt"
+	"golang.org/x/crypto/openpgp/clearsign"
 	"io"
 	"os"
 	"os/exec"
@@ -500,7 +503,7 @@ type debModel struct {
 	BinaryText  string
 	CtlCut      int // > 0: the control tar is compressed in two parts cut here (see compressParts)
 	DataCut     int
-	ZstWindow   int // > 0: zstd members are raw-block frames declaring a window of 2^ZstWindow bytes
+	ZstWindow   int  // > 0: zstd members are raw-block frames declaring a window of 2^ZstWindow bytes
 	V7          bool // the tar members carry old-style (pre-POSIX) headers: no "ustar" magic
 }
 
@@ -1103,6 +1106,68 @@ func streamDebsig(g *core.G) {
 				if k < 3 { // C16 claims tamper evidence for the three signed members; a bit of the
 					// signature packet itself may be insignificant to OpenPGP (compared with the model only)
 					g.Emit("law-debsig", core.Hex(string(data)), core.Hex(role), core.Hex(serializeKeyring(krIn)), "reject", "")
+				}
+			}
+		}
+		// debian-binary is more than its first line: deb(5) allows further lines, the loader reads
+		// the first and the signature covers the whole member.  Lines added, changed or removed after
+		// the signature was made: the package still loads, verification must fail
+		for _, tail := range []string{"anything\n", "\n", " ", "2.0\n", strings.Repeat("x", r.Range(1, 5000))} {
+			bad := append([]arMember{}, ms...)
+			bad[0].Data = append(append([]byte{}, ms[0].Data...), tail...)
+			data := buildAr(bad)
+			emitDebsig(g, data, role, krIn)
+			g.Emit("law-debsig", core.Hex(string(data)), core.Hex(role), core.Hex(serializeKeyring(krIn)), "reject", "")
+			emitDeb(g, data)
+		}
+		{
+			// and signed with such lines present, which then verify as they are and not without them
+			with := append([]arMember{}, ms[:3]...)
+			with[0].Data = []byte("2.0\n" + r.Pick([]string{"built by verif\n", "\n\n", "3.0\n"}))
+			sig2 := detachSign(signer, append(append(append([]byte{}, with[0].Data...), with[1].Data...), with[2].Data...))
+			with = append(with, arMember{Name: "_gpg" + role, TS: "0", UID: "0", GID: "0", Mode: "100644", Data: sig2})
+			data := buildAr(with)
+			emitDebsig(g, data, role, krIn)
+			g.Emit("law-debsig", core.Hex(string(data)), core.Hex(role), core.Hex(serializeKeyring(krIn)), "accept", fmt.Sprintf("ok:%016x", signer.PrimaryKey.KeyId))
+			with[0].Data = []byte("2.0\n")
+			data = buildAr(with)
+			emitDebsig(g, data, role, krIn)
+			g.Emit("law-debsig", core.Hex(string(data)), core.Hex(role), core.Hex(serializeKeyring(krIn)), "reject", "")
+		}
+		// a signature member in dpkg-sig(1) form: a clearsigned manifest with the digests of the three
+		// members, made with a key of the keyring.  Whatever CheckDebsig makes of such a member, it
+		// never succeeds for a package whose control or data member is not the one the manifest
+		// describes - also when the replacement has another compression extension, so that the
+		// manifest's names no longer name what the loader reads
+		{
+			manifest := "Version: 4\nSigner: Verif <verif@example.org>\nDate: Mon Feb 26 14:22:11 2024\nRole: " + role + "\nFiles: \n"
+			for _, x := range ms[:3] {
+				manifest += fmt.Sprintf("\t%x %x %d %s\n", md5.Sum(x.Data), sha1.Sum(x.Data), len(x.Data), x.Name)
+			}
+			var sigText bytes.Buffer
+			if w, err := clearsign.Encode(&sigText, signer.PrivateKey, nil); err == nil {
+				w.Write([]byte(manifest))
+				w.Close()
+				sigText.WriteByte('\n')
+				dm := genDebModel(r)
+				for k := 1; k <= 2; k++ {
+					for _, ext := range []string{m.CtlExt, "", ".gz", ".xz"} {
+						bad := append([]arMember{}, ms[:3]...)
+						base, files := "control.tar", dm.CtlFiles
+						if k == 2 {
+							base, files = "data.tar", dm.DataFiles
+							if ext == m.CtlExt {
+								ext = m.DataExt
+							}
+						}
+						bad[k] = arMember{Name: base + ext, TS: "0", UID: "0", GID: "0", Mode: "100644", Data: compress(ext, buildTar(files))}
+						if bytes.Equal(bad[k].Data, ms[k].Data) {
+							continue
+						}
+						bad = append(bad, arMember{Name: "_gpg" + role, TS: "0", UID: "0", GID: "0", Mode: "100644", Data: sigText.Bytes()})
+						data := buildAr(bad)
+						g.Emit("law-debsig", core.Hex(string(data)), core.Hex(role), core.Hex(serializeKeyring(krIn)), "reject", "")
+					}
 				}
 			}
 		}
